@@ -38,12 +38,16 @@ def run_virtual(main_coro_fn, *args):
 
     # the stub world may have replaced anyio.fail_after in this process
     real_fail_after = importlib.import_module("anyio._core._tasks").fail_after
+    from . import env as _env
+
     saved = _anyio.fail_after
     _anyio.fail_after = real_fail_after
+    _env.real_checkpoints()
     try:
         return _anyio.run(main_coro_fn, *args, backend="asyncio", backend_options={"loop_factory": VLoop})
     finally:
         _anyio.fail_after = saved
+        _env.stub_checkpoints()
 
 
 def now_ticks():
